@@ -576,11 +576,12 @@ impl Ws {
                 if !p.is_empty() {
                     p.push('/');
                 }
-                let cand = format!("{}{}.py", p, relmod);
+                // a package takes precedence over a module of the same name in the same directory
+                let cand = format!("{}{}/__init__.py", p, relmod);
                 if let Some(i) = self.file_index(&cand) {
                     return Some(i);
                 }
-                let cand = format!("{}{}/__init__.py", p, relmod);
+                let cand = format!("{}{}.py", p, relmod);
                 if let Some(i) = self.file_index(&cand) {
                     return Some(i);
                 }
@@ -598,8 +599,8 @@ impl Ws {
             base.push(part);
         }
         let p = base.join("/");
-        self.file_index(&format!("{}.py", p))
-            .or_else(|| self.file_index(&format!("{}/__init__.py", p)))
+        self.file_index(&format!("{}/__init__.py", p))
+            .or_else(|| self.file_index(&format!("{}.py", p)))
     }
 
     /// The definition of `name` that `file` makes available as a *provider* (conftest / plugin
